@@ -24,10 +24,19 @@ def parseSegs (s : String) : Option (List Seg) :=
   if s == "-" then some [] else (s.splitOn ",").mapM parseSeg
 
 /-- the server configuration of a case line: `sv=<tracing><http log file><tls>`; only cfg.Tracing changes the chain -/
-def chainOf (ws : List String) : List Layer :=
+def listenerOf (ws : List String) : Listener :=
   match field ws "sv" with
-  | some sv => Gen.chain (sv.startsWith "1")
-  | none => Gen.chain false
+  | some sv => if sv.length == 4 && (sv.drop 3) != "0" then .libp2p else .http
+  | none => .http
+
+/-- a fourth digit of `sv` names the listener the request was sent to (1, 2: the libp2p-tunnelled one); the chain is the
+    one `listenerChain` reads off the regenerated serve sites (`[]` = nothing modelled, every case differs) -/
+def chainOf (ws : List String) : List Layer :=
+  let tr := match field ws "sv" with
+    | some sv => sv.startsWith "1"
+    | none => false
+  (listenerChain Gen.runStarts Gen.serveSites Gen.serverLiterals Gen.routerValues Gen.serverWrites
+    (Gen.chain tr) (listenerOf ws)).getD []
 
 /-- configured pairs: `-` or `user:pass,user:pass` -/
 def parseCreds (s : String) : Option (List (String × String)) :=
@@ -189,7 +198,7 @@ def answerReq (pre post : List String) : String :=
     -- the model runs with the header classified by the extracted logic of basicAuthHandler
     let ma := match parseCredSit pre "au" with | some (_, _, x) => x | none => r.auth
     let m := handle (chainOf pre) Gen.routes { r with auth := ma }
-    let a := arm r ++ "-" ++ toString m.status
+    let a := arm r ++ "-" ++ toString m.status ++ (if listenerOf pre == .libp2p then "-p2p" else "")
     let failed := (clauses r o).filter (fun c => !c.2)
     if !failed.isEmpty then
       let names := failed.map (·.1)
